@@ -11,7 +11,7 @@
    Variant # "real" is used for NEGATIVE runs only (the check expects TLC to report StatementSafety). *)
 EXTENDS ClientMetadata
 
-CONSTANTS Shape, HopLen, Depth
+CONSTANTS Shape, HopLen, Depth, ConfSel
 
 H(n, v) == [n |-> n, v |-> v]
 
@@ -33,22 +33,25 @@ BatchHdrs == { <<>>,
                <<H("X-TENANT", "a,b")>>,                            \* ONE value with a comma
                <<H("x-tenant", "")>>,                               \* empty value # unset
                <<H("x-tenant", "a"), H("x-other", "b")>> }          \* same group as the second one
-             \cup (IF Depth = "quick" THEN {} ELSE
+             \cup (IF Depth # "full" THEN {} ELSE
              { <<H("x-tenant", "b"), H("x-tenant", "a")>>,          \* the order of the values counts
                <<H("x-tenant", "a"), H("X-Env", "a")>>,
                <<H("x-env", "a")>> })
-BatchTrs   == IF Depth = "quick" THEN {"grpc", "http/proto"} ELSE Transports
-BatchItems == IF Depth = "quick" THEN {1, 3} ELSE {1, 2, 3}
+DeepHdrs  == { <<>>, <<H("x-tenant", "a")>>, <<H("X-Tenant", "a"), H("x-tenant", "b")>>, <<H("X-TENANT", "a,b")>> }
+BatchTrs   == IF Depth = "quick" THEN {"grpc", "http/proto"} ELSE IF Depth = "deep" THEN {"http/json"} ELSE Transports
+BatchItems == {1, 3}
 \* the transport does not influence what follows the hop (checked by the hop shape): vary it with the header list
-BatchPool  == {[tr |-> t, hdrs |-> h, items |-> n] : t \in BatchTrs, h \in BatchHdrs, n \in BatchItems}
-Sizes      == { <<4, 0>>, <<2, 2>>, <<0, 0>> } \cup (IF Depth = "quick" THEN {} ELSE { <<3, 4>>, <<0, 2>>, <<1, 1>> })
+BatchPool  == {[tr |-> t, hdrs |-> h, items |-> n] : t \in BatchTrs, h \in (IF Depth = "deep" THEN DeepHdrs ELSE BatchHdrs), n \in BatchItems}
+Sizes      == { <<4, 0>>, <<2, 2>>, <<0, 0>> } \cup (IF Depth # "full" THEN {} ELSE { <<3, 4>>, <<0, 2>>, <<1, 1>> })
 BatchConfigs == {c \in {[include |-> i, keys |-> k, limit |-> l, size |-> s[1], max |-> s[2]] :
                             i \in BOOLEAN, k \in KeySets, l \in {0, 2}, s \in Sizes} :
                      /\ ValidConf(c)
                      /\ ~Keyed(c) => c.limit = 0
                      /\ ~c.include => c.size = 4}
 
-MCConfigs == IF Shape = "hop" THEN HopConfigs ELSE BatchConfigs
+\* ConfSel = "limit": only the configurations in which the cardinality limit can bite (used for the longest scripts)
+LimitConfigs == {c \in BatchConfigs : c.include /\ Keyed(c) /\ c.limit > 0}
+MCConfigs == IF Shape = "hop" THEN HopConfigs ELSE IF ConfSel = "limit" THEN LimitConfigs ELSE BatchConfigs
 MCPool    == IF Shape = "hop" THEN HopPool ELSE BatchPool
 
 ASSUME TablesWellFormed
